@@ -8,7 +8,7 @@ namespace ExprModel.Refine
 open ExprModel
 open ExprModel.Spec
 
-variable {c : Cfg} {P : Prog} {ctx : Ctx}
+variable {c : Cfg} {P : LProg} {ctx : Ctx}
 
 def fbCount (sc : SCfg) (ctx : Ctx) (b : Node) (coll : Val) : Nat → Int → SM (Int ⊕ Val) :=
   fun i k => do
@@ -78,7 +78,8 @@ theorem hbody_count {b : Node} {cb EPI : List LInstr} {l : Loc} {ci cs car c0 cc
     (coll : Val) (N k0 : Nat) (st : List Val) (scs : List Scope)
     (hle : CodeAt P k0 (loopCode l ci cs car c0 (cb ++ emitCond l [li l .inc cc]) ++ EPI)) (hN : (N : Int) < 2 ^ 63)
     (i : Nat) (acc : Int) (σ : SState) (res : R (Int ⊕ Val)) (σ1 : SState) (sc : Scope) (hiN : i < N)
-    (hbase : Base sc coll N i) (hex : CountIs sc i acc) (hfb : fbCount (specOf c) ctx b coll i acc σ = (res, σ1)) :
+    (hbase : Base sc coll N i) (hex : CountIs sc i acc) (hfb : fbCount (specOf c) ctx b coll i acc σ = (res, σ1))
+    (hbr : RBlame P l res) :
     BodyPost c P (fun _ => []) CountIs coll N i (k0 + 24 + lsize (cb ++ emitCond l [li l .inc cc]))
       (k0 + 32 + lsize (cb ++ emitCond l [li l .inc cc])) st scs
       (vm (k0 + 24) ([] ++ st) (sc :: scs) σ c.budget) res σ1 := by
@@ -119,25 +120,25 @@ theorem hbody_count {b : Node} {cb EPI : List LInstr} {l : Loc} {ci cs car c0 cc
     · have hnb : ∀ t, x ≠ .bool t := fun t h => hbv ⟨t, h⟩
       rw [asBool_other hnb, SM.bind_apply, SM.fail_apply] at hrest
       obtain ⟨rfl, rfl⟩ := Prod.mk.inj hrest
-      exact r1.trans_err (Runs.jumpIf_err (.inr rfl) hj hnb)
+      exact r1.trans_err (Runs.jumpIf_err (.inr rfl) hj hnb (hbr _ rfl))
 
 theorem equalV_int (a b : Int) : equalV (.int .int a) (.int .int b) = (a == b) := rfl
 
 theorem sim_count {m : Meta} {a b : Node} {ca cb : List LInstr} {ci cs car c0 cc : Nat}
     (ha : Sim c P ctx a ca) (hb : ∀ ctx', Sim c P ctx' b cb) (hsmall : SmallColl c a) (hK : LoopK P.consts ci cs car c0)
-    (hcc : P.consts[cc]? = some (.str "count")) :
+    (hcc : P.consts[cc]? = some (.str "count")) (hbl : BlameOK c P (.builtin m "count" [a, b])) :
     Sim c P ctx (.builtin m "count" [a, b])
       (ca ++ [li m.loc .begin_, li m.loc .push c0, li m.loc .store cc] ++
         emitLoop m.loc ci cs car c0 (cb ++ emitCond m.loc [li m.loc .inc cc]) ++ [li m.loc .load cc, li m.loc .end_]) := by
   refine sim_loop m.loc (fbCount (specOf c) ctx b) (fun _ k => pure (.int .int k)) (0 : Int) (fun _ => [])
-    CountIs (eval_bi_count _ m a b) ha hsmall hK rfl (fun sc j acc k v hk h => h.set hk) ?_
-    (fun coll N k0 st scs hle hN i acc σ res σ1 sc hiN hbase hex hfb =>
-      hbody_count hb hcc coll N k0 st scs hle hN i acc σ res σ1 sc hiN hbase hex hfb) ?_
+    CountIs (eval_bi_count _ m a b) ha hsmall hK hbl rfl (fun sc j acc k v hk h => h.set hk) ?_
+    (fun coll N k0 st scs hle hN i acc σ res σ1 sc hiN hbase hex hfb hbr =>
+      hbody_count hb hcc coll N k0 st scs hle hN i acc σ res σ1 sc hiN hbase hex hfb hbr) ?_
     (fun k st scs σ sc' v h hex => by obtain ⟨_, _, _, _, h⟩ := hex; exact (fbCount_no_exit h).elim)
   · intro k st scs σ coll h
     obtain ⟨sc0, h0, hr⟩ := pro_count (c := c) hK.zero hcc k st scs σ coll h
     exact ⟨sc0, ⟨h0, by omega, by omega⟩, hr⟩
-  · intro coll N k st scs σ sc' accF r σ' h hbase hex hev
+  · intro coll N k st scs σ sc' accF r σ' h hbase hex hev _
     rw [SM.pure_apply] at hev
     obtain ⟨rfl, rfl⟩ := Prod.mk.inj hev
     refine Runs.load h hcc ?_
@@ -146,20 +147,21 @@ theorem sim_count {m : Meta} {a b : Node} {ca cb : List LInstr} {ci cs car c0 cc
 
 theorem sim_one {m : Meta} {a b : Node} {ca cb : List LInstr} {ci cs car c0 cc c1 : Nat}
     (ha : Sim c P ctx a ca) (hb : ∀ ctx', Sim c P ctx' b cb) (hsmall : SmallColl c a) (hK : LoopK P.consts ci cs car c0)
-    (hcc : P.consts[cc]? = some (.str "count")) (hc1 : P.consts[c1]? = some (.int .int 1)) :
+    (hcc : P.consts[cc]? = some (.str "count")) (hc1 : P.consts[c1]? = some (.int .int 1))
+    (hbl : BlameOK c P (.builtin m "one" [a, b])) :
     Sim c P ctx (.builtin m "one" [a, b])
       (ca ++ [li m.loc .begin_, li m.loc .push c0, li m.loc .store cc] ++
         emitLoop m.loc ci cs car c0 (cb ++ emitCond m.loc [li m.loc .inc cc]) ++
         [li m.loc .load cc, li m.loc .push c1, li m.loc .equal, li m.loc .end_]) := by
   refine sim_loop m.loc (fbCount (specOf c) ctx b) (fun _ k => pure (.bool (k == 1))) (0 : Int) (fun _ => [])
-    CountIs (eval_bi_one _ m a b) ha hsmall hK rfl (fun sc j acc k v hk h => h.set hk) ?_
-    (fun coll N k0 st scs hle hN i acc σ res σ1 sc hiN hbase hex hfb =>
-      hbody_count hb hcc coll N k0 st scs hle hN i acc σ res σ1 sc hiN hbase hex hfb) ?_
+    CountIs (eval_bi_one _ m a b) ha hsmall hK hbl rfl (fun sc j acc k v hk h => h.set hk) ?_
+    (fun coll N k0 st scs hle hN i acc σ res σ1 sc hiN hbase hex hfb hbr =>
+      hbody_count hb hcc coll N k0 st scs hle hN i acc σ res σ1 sc hiN hbase hex hfb hbr) ?_
     (fun k st scs σ sc' v h hex => by obtain ⟨_, _, _, _, h⟩ := hex; exact (fbCount_no_exit h).elim)
   · intro k st scs σ coll h
     obtain ⟨sc0, h0, hr⟩ := pro_count (c := c) hK.zero hcc k st scs σ coll h
     exact ⟨sc0, ⟨h0, by omega, by omega⟩, hr⟩
-  · intro coll N k st scs σ sc' accF r σ' h hbase hex hev
+  · intro coll N k st scs σ sc' accF r σ' h hbase hex hev _
     rw [SM.pure_apply] at hev
     obtain ⟨rfl, rfl⟩ := Prod.mk.inj hev
     refine Runs.load h hcc ?_
